@@ -95,6 +95,16 @@ Proof. intros; apply map_forallb_same; auto. intros p Hp. destruct (ingrp p); au
 Lemma term_leader_leader_dead : forall tb, leader_dead tb = true -> leader_dead (term_leader tb) = true.
 Proof. intros; apply map_forallb_same; auto. intros p Hp. destruct (lead p && negb (pign p)); auto. simpl. now rewrite andb_false_r. Qed.
 
+Lemma kill_leader_leaders_in : forall tb, leaders_in tb = true -> leaders_in (kill_leader tb) = true.
+Proof. intros; apply map_forallb_same; auto. intros p Hp. destruct (lead p) eqn:E; unfold set_dead; simpl; rewrite ?E; auto. Qed.
+Lemma kill_leader_no_ingroup : forall tb, no_ingroup_alive tb = true -> no_ingroup_alive (kill_leader tb) = true.
+Proof. intros; apply map_forallb_same; auto. intros p Hp. destruct (lead p); unfold set_dead; simpl; auto. Qed.
+Lemma kill_leader_leader_dead : forall tb, leader_dead (kill_leader tb) = true.
+Proof.
+  unfold leader_dead, kill_leader; induction tb as [|p r IH]; simpl; auto. rewrite IH, andb_true_r.
+  destruct (lead p) eqn:E; simpl; rewrite ?E; auto; try (now rewrite andb_false_r).
+Qed.
+
 Lemma survivors_zero : forall tb, no_ingroup_alive tb = true -> survivors tb = 0.
 Proof.
   unfold no_ingroup_alive, survivors; induction tb as [|p r IH]; simpl; auto.
@@ -123,6 +133,8 @@ Lemma kill_group_tbl_ok : forall tb, tbl_ok tb = true -> tbl_ok (kill_group tb) 
 Proof. intros; apply map_forallb_same; auto. intros p Hp. destruct (ingrp p) eqn:E; auto. Qed.
 Lemma term_leader_tbl_ok : forall tb, tbl_ok tb = true -> tbl_ok (term_leader tb) = true.
 Proof. intros; apply map_forallb_same; auto. intros p Hp. destruct (lead p && negb (pign p)); auto. Qed.
+Lemma kill_leader_tbl_ok : forall tb, tbl_ok tb = true -> tbl_ok (kill_leader tb) = true.
+Proof. intros; apply map_forallb_same; auto. intros p Hp. destruct (lead p); auto. Qed.
 Lemma tbl_ok_no_holder : forall tb, tbl_ok tb = true -> no_ingroup_alive tb = true -> no_holder tb = true.
 Proof.
   unfold tbl_ok, no_ingroup_alive, no_holder; induction tb as [|p r IH]; simpl; auto.
@@ -167,6 +179,8 @@ Lemma work_kill_group : forall tb, work (kill_group tb) <= work tb.
 Proof. intros; apply work_map_le. intros p. destruct (ingrp p); auto. unfold pw, set_dead; simpl. lia. Qed.
 Lemma work_term_leader : forall tb, work (term_leader tb) <= work tb.
 Proof. intros; apply work_map_le. intros p. destruct (lead p && negb (pign p)); auto. unfold pw, set_dead; simpl. lia. Qed.
+Lemma work_kill_leader : forall tb, work (kill_leader tb) <= work tb.
+Proof. intros; apply work_map_le. intros p. destruct (lead p); auto. unfold pw, set_dead; simpl. lia. Qed.
 Lemma work_pstep : forall i tb tb', pstep i tb = Some tb' -> work tb' < work tb.
 Proof.
   unfold pstep; intros i tb tb' H. destruct (nth_error tb i) as [p|] eqn:En; [|discriminate].
@@ -217,21 +231,29 @@ Ltac use_eqs :=
   end.
 
 Ltac fin :=
-  unfold fuel, main_rem; simpl; use_eqs; simpl;
+  unfold fuel, main_rem, gkill; simpl;
   repeat match goal with |- context [if ?b then _ else _] => destruct b; simpl in * end;
+  use_eqs; simpl;
   try lia; try (rewrite ?andb_false_r in *; discriminate).
+
+Section WithFacts.
+Variable F : facts.
+Local Notation step := (step F).
+Local Notation run := (run F).
+Local Notation exec1 := (exec1 F).
+Local Notation steps_taken := (steps_taken F).
 
 Lemma step_decreases : forall s l s', step s l = Some s' -> fuel s' < fuel s.
 Proof.
   intros s l s' H.
   pose proof (work_root (prog s)) as WR. unfold work in WR. simpl in WR.
   destruct l; simpl in H;
-    unfold main_step, user_step, mon_step, stop_step, watch_step, runwatch_step, proc_step in H.
-  - crush_head; try (destruct (ctx_done s) eqn:?); pose proof (work_kill_group (tbl s)) as WK; pose proof (work_term_leader (tbl s)) as WT; fin.
-  - crush_head; try (destruct (ctx_done s) eqn:?); pose proof (work_kill_group (tbl s)) as WK; pose proof (work_term_leader (tbl s)) as WT; fin.
-  - crush_head; try (destruct (ctx_done s) eqn:?); pose proof (work_kill_group (tbl s)) as WK; pose proof (work_term_leader (tbl s)) as WT; fin.
-  - crush_head; try (destruct (ctx_done s) eqn:?); pose proof (work_kill_group (tbl s)) as WK; pose proof (work_term_leader (tbl s)) as WT; fin.
-  - crush_head; try (destruct (ctx_done s) eqn:?); pose proof (work_kill_group (tbl s)) as WK; pose proof (work_term_leader (tbl s)) as WT; fin.
+    unfold main_step, user_step, mon_step, stop_step, watch_step, runwatch_step, proc_step, gkill in H.
+  - crush_head; try (destruct (ctx_done s) eqn:?); pose proof (work_kill_group (tbl s)) as WK; pose proof (work_term_leader (tbl s)) as WT; pose proof (work_kill_leader (tbl s)) as WL; fin.
+  - crush_head; try (destruct (ctx_done s) eqn:?); pose proof (work_kill_group (tbl s)) as WK; pose proof (work_term_leader (tbl s)) as WT; pose proof (work_kill_leader (tbl s)) as WL; fin.
+  - crush_head; try (destruct (ctx_done s) eqn:?); pose proof (work_kill_group (tbl s)) as WK; pose proof (work_term_leader (tbl s)) as WT; pose proof (work_kill_leader (tbl s)) as WL; fin.
+  - crush_head; try (destruct (ctx_done s) eqn:?); pose proof (work_kill_group (tbl s)) as WK; pose proof (work_term_leader (tbl s)) as WT; pose proof (work_kill_leader (tbl s)) as WL; fin.
+  - crush_head; try (destruct (ctx_done s) eqn:?); pose proof (work_kill_group (tbl s)) as WK; pose proof (work_term_leader (tbl s)) as WT; pose proof (work_kill_leader (tbl s)) as WL; fin.
   - destruct (pstep i (tbl s)) eqn:E; [|discriminate]. inversion H; subst.
     apply work_pstep in E. unfold fuel, main_rem; simpl. lia.
 Qed.
@@ -249,3 +271,4 @@ Proof. intros; unfold fuel, main_rem; simpl. lia. Qed.
 Lemma run_bounded_l : forall sm km t sched, steps_taken (init sm km t) sched <= 38 + tw t.
 Proof. intros. pose proof (steps_bounded sched (init sm km t)). rewrite fuel_init in H. lia. Qed.
 
+End WithFacts.
